@@ -387,6 +387,63 @@ def run_mutant(mspec):
     return out
 
 
+def run_revised(spec, ck, how):
+    """In a pristine child: the (valid) design is elaborated; then the external cell `ck` is revised in place - a pin appended,
+    its first pin widened, or its last pin removed - and a new parent wires an instance of it as the OLD pin list asked."""
+    env.setup_paths()
+    import hdl21 as h
+    try:
+        b = Builder(spec)
+        top = b.module(spec["top"])
+        h.elaborate(top)
+        X = b.cell(ck)
+        old = [(p.name, p.width) for p in X.port_list]
+        if how == "append":
+            X.port_list.append(h.Input(name="zznew", width=1))
+        elif how == "widen":
+            p0 = X.port_list[0]
+            X.port_list[0] = h.Signal(name=p0.name, width=p0.width + 1, vis=p0.vis, direction=p0.direction)
+        else:
+            X.port_list.pop()
+        par_ = h.Module(name="AfterRevision")
+        conns = {nm: par_.add(h.Signal(name="r_" + nm, width=w)) for nm, w in old}
+        par_.add(X(tag=7)(**conns), name="x")
+    except Exception as e:
+        return {"build": "raised:%s" % type(e).__name__}
+    out = {}
+    try:
+        h.elaborate(par_)
+        out["elaborate"] = "returned"
+    except Exception as e:
+        out["elaborate"] = "raised:%s" % type(e).__name__
+        return out
+    try:
+        h.to_proto(par_)
+        out["to_proto"] = "returned"
+    except Exception as e:
+        out["to_proto"] = "raised:%s" % type(e).__name__
+    return out
+
+
+def eval_revised(res, base_hash, spec, ck, how):
+    cls = {"append": "missing_connection", "widen": "width_mismatch", "remove": "extra_connection"}[how]
+    site = "external_cell_revised_after_use/" + how
+    v = par.pristine(run_revised, spec, ck, how)
+    if par.is_exc(v):
+        res.harness_error("%s %s %s" % (v[1], v[2], v[3][-800:]))
+        return
+    case = {"fault": cls, "site": site, "spec": spec, "revise": [ck, how]}
+    key = "%s|%s|%s|%d" % (base_hash, cls, site, ck)
+    if "build" in v:
+        res.notes["revision_not_built:" + v["build"]] += 1
+        return
+    for call in ("elaborate", "to_proto"):
+        if v.get(call) == "returned":
+            res.fail("%s_accepts:%s:%s" % (call, cls, site), case,
+                     "%s returned normally for an instance wired as the cell's pin list read before it was revised (%s) (results: %s)" % (call, how, v))
+    res.case(case, True, [cls, "site:" + site], key=key)
+
+
 def eval_mutant(res, base_hash, cls, site, mspec):
     try:
         model.flatten(mspec)
@@ -453,6 +510,12 @@ def shard(idx, n, tier):
             ms += [x for x in rare if not any(x is y for y in ms)]
         for cls, site, mspec in ms:
             eval_mutant(res, bh, cls, site, mspec)
+        base = {k: spec[k] for k in spec if k != "features"}
+        used = sorted({i["of"][1] for m in spec["modules"] for i in m["insts"] if i["of"][0] == "cell" and spec["cells"][i["of"][1]]["kind"] == "ext"})
+        for ck in used[:2]:
+            for how in ("append", "widen", "remove"):
+                if how != "remove" or len(spec["cells"][ck]["ports"]) >= 2:
+                    eval_revised(res, bh, base, ck, how)
         res.notes["base_designs"] += 1
 
     run()
@@ -461,7 +524,10 @@ def shard(idx, n, tier):
 
 def replay(case):
     res = core.Result()
-    eval_mutant(res, "replay", case["fault"], case["site"], case["spec"])
+    if case.get("revise"):
+        eval_revised(res, "replay", case["spec"], case["revise"][0], case["revise"][1])
+    else:
+        eval_mutant(res, "replay", case["fault"], case["site"], case["spec"])
     if res.harness_errors:
         raise RuntimeError(res.harness_errors[0])
     return [(sig, lst[0]["detail"]) for sig, lst in res.failures.items()]
